@@ -43,38 +43,85 @@ func waitQuiescent(d time.Duration) (sum, min int, detail string) {
 	}
 }
 
+// c07Hold describes the generated part of the "chold" cluster's backend table
+// (reloaded while requests are held): per-port name suffix and weight, plus an optional
+// extra member on a refused port.
+type c07Hold struct {
+	Rename [3]int // name generation of the backend on ports[i] (h<i> / h<i>-r<gen>)
+	Weight [3]int // 0 = default 10
+	Dead   bool
+}
+
+func c07Conf(version string, p []int, hv c07Hold) *sys.DataConf {
+	cl := sys.Cluster{Name: "c", RetryMax: 2, CrossRetry: 0, RetryLevel: 1, TimeoutResponseHeaderMs: 250, TimeoutConnSrvMs: 500, BalanceMode: "WLC"}
+	sc := sys.SubCluster{Name: "s0", Weight: 100}
+	for i, port := range p[:3] {
+		sc.Backends = append(sc.Backends, sys.BackendSpec{Name: fmt.Sprintf("b%d", i), Addr: "127.0.0.1", Port: port, Weight: 10})
+	}
+	sc.Backends = append(sc.Backends, sys.BackendSpec{Name: "dead0", Addr: "127.0.0.1", Port: 1, Weight: 10})
+	cl.Sub = []sys.SubCluster{sc}
+	// "flap" cluster: one backend that the health state machine takes out of rotation after
+	// two request failures and brings back after one successful TCP probe (every 20 ms)
+	fl := sys.Cluster{Name: "cflap", RetryMax: 0, RetryLevel: 0, TimeoutResponseHeaderMs: 30000, TimeoutConnSrvMs: 500, FailNum: 2, CheckIntervalMs: 20,
+		Sub: []sys.SubCluster{{Name: "sf", Weight: 100, Backends: []sys.BackendSpec{{Name: "bflap", Addr: "127.0.0.1", Port: p[3], Weight: 10}}}}}
+	// "hold" cluster: same backends as c, but a response header timeout long enough for a
+	// batch of requests to be parked inside backends however loaded the machine is
+	hl := sys.Cluster{Name: "chold", RetryMax: 0, RetryLevel: 0, TimeoutResponseHeaderMs: 30000, TimeoutConnSrvMs: 2000, BalanceMode: "WLC"}
+	hsc := sys.SubCluster{Name: "sh", Weight: 100}
+	for i, port := range p[:3] {
+		name := fmt.Sprintf("h%d", i)
+		if hv.Rename[i] > 0 {
+			name = fmt.Sprintf("h%d-r%d", i, hv.Rename[i])
+		}
+		wt := hv.Weight[i]
+		if wt == 0 {
+			wt = 10
+		}
+		hsc.Backends = append(hsc.Backends, sys.BackendSpec{Name: name, Addr: "127.0.0.1", Port: port, Weight: wt})
+	}
+	if hv.Dead {
+		hsc.Backends = append(hsc.Backends, sys.BackendSpec{Name: "hdead", Addr: "127.0.0.1", Port: 2, Weight: 10})
+	}
+	hl.Sub = []sys.SubCluster{hsc}
+	return sys.SimpleConf(version, []sys.Cluster{cl, fl, hl}, []sys.Rule{
+		{Cond: `req_path_prefix_in("/c07h/", false)`, Cluster: "chold"},
+		{Cond: `req_path_prefix_in("/c07f/", false)`, Cluster: "cflap"},
+		{Cond: `default_t()`, Cluster: "c"},
+	})
+}
+
+// balancerCounts reads ConnNum of the backend objects the balancer of a cluster currently
+// schedules over (what least-connection balancing uses), keyed by port.
+func balancerCounts(w *world, cluster string) (map[int]int, string) {
+	out := map[int]int{}
+	var parts []string
+	bal, err := w.rig.Srv.VerifBalTable().Lookup(cluster)
+	if err != nil {
+		return out, "lookup: " + err.Error()
+	}
+	for i := 0; i < bal.SubClusterNum(); i++ {
+		_, brr := bal.VerifSubClusterAt(i)
+		if brr == nil {
+			continue
+		}
+		for j := 0; j < brr.Len(); j++ {
+			b := brr.VerifBackendAt(j)
+			out[b.Port] += b.ConnNum()
+			parts = append(parts, fmt.Sprintf("%s:%d=%d", b.Name, b.Port, b.ConnNum()))
+		}
+	}
+	return out, strings.Join(parts, " ")
+}
+
 func TestC07(t *testing.T) {
 	rec := ev.New("C07", "requests through an in-process BFE whose cluster mixes live harness backends and refused ports (RetryMax 2, retry-GET); per request a generated per-arrival backend fault script (close before response, header timeout, half response, good) and a generated module verdict (Finish at HandleForward, Response/Redirect/Close/Finish at request points, Finish/Redirect at HandleReadResponse, Finish at HandleRequestFinish); plus batches of 2..6 concurrent requests held inside backends. Oracle: ConnNum() of every backend the balancer ever returned is never negative, equals the number of held requests while they are inside a backend exchange, and is 0 at quiescence. non-trivial: >=1 retry, or a forward-phase Finish, or a held batch; distinct by script")
 	var ports []int
 	w := startWorld(t, 4, sys.Options{AfterInit: installFilters}, func(p []int) *sys.DataConf {
 		ports = p
-		cl := sys.Cluster{Name: "c", RetryMax: 2, CrossRetry: 0, RetryLevel: 1, TimeoutResponseHeaderMs: 250, TimeoutConnSrvMs: 500, BalanceMode: "WLC"}
-		sc := sys.SubCluster{Name: "s0", Weight: 100}
-		for i, port := range p[:3] {
-			sc.Backends = append(sc.Backends, sys.BackendSpec{Name: fmt.Sprintf("b%d", i), Addr: "127.0.0.1", Port: port, Weight: 10})
-		}
-		sc.Backends = append(sc.Backends, sys.BackendSpec{Name: "dead0", Addr: "127.0.0.1", Port: 1, Weight: 10})
-		cl.Sub = []sys.SubCluster{sc}
-		// "flap" cluster: one backend that the health state machine takes out of rotation after
-		// two request failures and brings back after one successful TCP probe (every 20 ms)
-		fl := sys.Cluster{Name: "cflap", RetryMax: 0, RetryLevel: 0, TimeoutResponseHeaderMs: 30000, TimeoutConnSrvMs: 500, FailNum: 2, CheckIntervalMs: 20,
-			Sub: []sys.SubCluster{{Name: "sf", Weight: 100, Backends: []sys.BackendSpec{{Name: "bflap", Addr: "127.0.0.1", Port: p[3], Weight: 10}}}}}
-		// "hold" cluster: same backends as c, but a response header timeout long enough for a
-		// batch of requests to be parked inside backends however loaded the machine is
-		hl := sys.Cluster{Name: "chold", RetryMax: 0, RetryLevel: 0, TimeoutResponseHeaderMs: 30000, TimeoutConnSrvMs: 2000, BalanceMode: "WLC"}
-		hsc := sys.SubCluster{Name: "sh", Weight: 100}
-		for i, port := range p[:3] {
-			hsc.Backends = append(hsc.Backends, sys.BackendSpec{Name: fmt.Sprintf("h%d", i), Addr: "127.0.0.1", Port: port, Weight: 10})
-		}
-		hl.Sub = []sys.SubCluster{hsc}
-		return sys.SimpleConf("v0", []sys.Cluster{cl, fl, hl}, []sys.Rule{
-			{Cond: `req_path_prefix_in("/c07h/", false)`, Cluster: "chold"},
-			{Cond: `req_path_prefix_in("/c07f/", false)`, Cluster: "cflap"},
-			{Cond: `default_t()`, Cluster: "c"},
-		})
+		return c07Conf("v0", p, c07Hold{})
 	})
-	_ = ports
 	n := 0
+	var holdVar c07Hold // current generated state of chold's backend table
 	rapid.Check(t, func(rt *rapid.T) {
 		n++
 		mode := rapid.SampledFrom([]string{"single", "single", "single", "single", "single", "batch", "batch", "flap"}).Draw(rt, "mode")
@@ -163,8 +210,13 @@ func TestC07(t *testing.T) {
 		}
 		if mode == "batch" {
 			k := rapid.IntRange(2, 6).Draw(rt, "k")
-			rec.Case(fmt.Sprintf("batch%d", k), true, "batch")
-			rec.Sample(map[string]any{"mode": "batch", "k": k})
+			nreload := rapid.SampledFrom([]int{0, 0, 1, 2}).Draw(rt, "nreload")
+			if nreload > 0 {
+				rec.Case(fmt.Sprintf("batch%d+reload%d", k, nreload), true, "batch", "batch-with-table-reload")
+			} else {
+				rec.Case(fmt.Sprintf("batch%d", k), true, "batch")
+			}
+			rec.Sample(map[string]any{"mode": "batch", "k": k, "reloads_while_held": nreload})
 			w.mu.Lock()
 			w.holdCh = make(chan struct{})
 			hold := w.holdCh
@@ -199,22 +251,86 @@ func TestC07(t *testing.T) {
 				}
 				time.Sleep(time.Millisecond)
 			}
+			// which harness backend (port) holds how many of them
+			heldAt := map[int]int{}
+			for _, tg := range targets {
+				for _, sr := range w.seenFor(tg) {
+					for i, b := range w.backends {
+						if b.Name == sr.Backend {
+							heldAt[ports[i]]++
+						}
+					}
+				}
+			}
+			wit := map[string]any{"mode": "batch", "k": k, "held_at_port": fmt.Sprint(heldAt)}
+			// optionally the operator reloads the backend table while the requests are in
+			// flight: members renamed (same address), re-weighted, a member added/removed
+			for r := 0; r < nreload; r++ {
+				for i := range holdVar.Rename {
+					switch rapid.IntRange(0, 3).Draw(rt, "edit") {
+					case 0:
+						holdVar.Rename[i]++
+					case 1:
+						holdVar.Weight[i] = rapid.SampledFrom([]int{1, 5, 10, 20}).Draw(rt, "weight")
+					}
+				}
+				holdVar.Dead = rapid.Bool().Draw(rt, "dead-member")
+				if err := w.rig.Reload(c07Conf(fmt.Sprintf("v%d.%d", n, r), ports, holdVar)); err != nil {
+					close(hold)
+					wg.Wait()
+					rt.Fatalf("rig: reload failed: %v", err)
+				}
+			}
+			wit["reloads_while_held"] = nreload
+			wit["table_after_reloads"] = fmt.Sprintf("%+v", holdVar)
 			sum, min, detail := connNums()
-			wit := map[string]any{"mode": "batch", "k": k, "conn_nums_while_held": detail}
+			balCnt, balDetail := balancerCounts(w, "chold")
+			wit["conn_nums_while_held"] = detail
+			wit["balancer_conn_nums_while_held"] = balDetail
 			close(hold)
 			wg.Wait()
 			for _, tg := range targets {
 				w.forget(tg)
 			}
+			suffix := ""
+			if nreload > 0 {
+				suffix = "-after-reload"
+			}
 			if min < 0 || sum != k {
-				if !rec.Fail(rt, "held-count-mismatch", wit, "%d requests are inside backend exchanges but ConnNum sum is %d (%s)", k, sum, detail) {
+				if !rec.Fail(rt, "held-count-mismatch"+suffix, wit, "%d requests are inside backend exchanges but ConnNum sum is %d (%s)", k, sum, detail) {
 					return
+				}
+			}
+			for _, port := range ports[:3] {
+				if balCnt[port] != heldAt[port] {
+					if !rec.Fail(rt, "balancer-count-mismatch"+suffix, wit, "backend on port %d holds %d requests but the balancer's count for it is %d (%s)", port, heldAt[port], balCnt[port], balDetail) {
+						return
+					}
 				}
 			}
 			sum, min, detail = waitQuiescent(5 * time.Second)
 			wit["conn_nums_after"] = detail
 			if min < 0 || sum != 0 {
-				rec.Fail(rt, "nonzero-after-batch", wit, "after all held requests finished: %s", detail)
+				if !rec.Fail(rt, "nonzero-after-batch"+suffix, wit, "after all held requests finished: %s", detail) {
+					return
+				}
+			}
+			// the objects the balancer schedules over must be back at zero as well
+			deadline = time.Now().Add(5 * time.Second)
+			for {
+				balCnt, balDetail = balancerCounts(w, "chold")
+				nz := false
+				for _, v := range balCnt {
+					nz = nz || v != 0
+				}
+				if !nz || time.Now().After(deadline) {
+					if nz {
+						wit["balancer_conn_nums_after"] = balDetail
+						rec.Fail(rt, "balancer-nonzero-after-batch"+suffix, wit, "after all held requests finished the balancer's counts are %s", balDetail)
+					}
+					break
+				}
+				time.Sleep(time.Millisecond)
 			}
 			return
 		}
